@@ -50,7 +50,11 @@ func (f *DelayFilter) Run(ctx context.Context) { //nolint:cyclop
 		case <-ctx.Done():
 			return
 		case <-f.push:
-			next := f.queue.peek().(timedChunk) //nolint:forcetypeassert
+			next, ok := f.queue.peek().(timedChunk)
+			if !ok {
+				// already forwarded by the timer before its notification arrived
+				continue
+			}
 			if !timer.Stop() {
 				<-timer.C
 			}
